@@ -128,15 +128,11 @@ func (w *World) SnapE() fsx.Snap {
 	if w.Dead {
 		return fsx.Snap{{Path: "/", Err: "HANG"}}
 	}
-	ch := make(chan fsx.Snap, 1)
-	go func() { ch <- fsx.Snapshot(w.V, fsx.SnapOpts{Roots: w.Roots, NoOwner: w.NoOwner}) }()
-	select {
-	case s := <-ch:
-		return s
-	case <-time.After(HangTimeout):
+	s := fsx.Snapshot(w.V, fsx.SnapOpts{Roots: w.Roots, NoOwner: w.NoOwner}) // guarded there
+	if len(s) == 1 && s[0].Err == "HANG" {
 		w.Dead = true
-		return fsx.Snap{{Path: "/", Err: "HANG"}}
 	}
+	return s
 }
 
 // SnapK snapshots the kernel side.
